@@ -7,6 +7,7 @@ A *spec list* describes a closed set of git objects by construction:
     ("R", pattern, n)                    blob: pattern repeated to n bytes
     ("E", i, permille, dele, ins)        blob: content of blob i with `dele` bytes at len*permille/1000 replaced by `ins`
     ("D", i, ops)                        blob: result of copy/insert ops over blob i (ops as in c02_packref.make_delta)
+    ("X", j, suffix)                     blob whose bytes are those of object j (any type) + suffix: type-confusable content
     ("T", [(kind, name, j), ...])        tree; kind in f(ile) x(exec) l(ink) d(ir); j = index of an earlier blob/tree
     ("C", tree_j, [parent_j...], msg)    commit
     ("G", target_j, name, msg)           annotated tag
@@ -79,6 +80,8 @@ def materialise(specs, hash_len=20):
         elif kind == "D":
             _, i, ops = s
             t, data = 3, ref.make_delta(objs[i].data, norm_ops(len(objs[i].data), ops))[1]
+        elif kind == "X":
+            t, data = 3, objs[s[1]].data + bytes(s[2])
         elif kind == "T":
             ents = []
             seen = set()
@@ -163,13 +166,12 @@ def strategies():
 
     PROFILES = dict(
         # name: (families, root sizes, max members per family, extra blobs, allow D-ops)
-        plain=((0, 3), [40, 300, 1000, 2047, 2048, 4096, 8192, 20000, 65535, 65536, 65537] + BOUNDARY_SIZES, 3, 6, False),
+        plain=((1, 3), [40, 300, 1000, 2047, 2048, 4096, 8192, 20000, 65535, 65536, 65537] + BOUNDARY_SIZES, 3, 6, False),
         # Myers in the debug-profile Rust build costs (N+M)*D, difflib is quadratic: unrelated pairs must stay small
         deltify=((1, 2), [15, 16, 40, 127, 128, 300, 600], 8, 2, False),
         deltify1=((1, 1), [1000, 2047, 2048, 4096], 7, 0, False),
         hand=((1, 3), [0, 16, 40, 127, 128, 300, 2047, 2048, 8192, 65536, 70000, 140000], 8, 4, True),
         git=((1, 3), [40, 300, 1000, 2047, 2048, 5000, 20000, 70000], 10, 4, False),
-        gitdeep=((1, 1), [300, 1000, 3000], 58, 0, False),
     )
 
     @st.composite
@@ -210,7 +212,7 @@ def strategies():
                     out.append(("D", root, ops))  # always over the root: its length is known to be n
                 else:
                     out.append(("E", src, draw(st.integers(0, 1000)), draw(st.integers(0, 40)),
-                                draw(st.one_of(small, st.just(b""), st.binary(min_size=100, max_size=300)))))
+                                draw(st.one_of(st.binary(min_size=1, max_size=40), st.binary(min_size=100, max_size=300)))))
                     members.append(len(out) - 1)
                 blobs.append(len(out) - 1)
                 budget -= 1
@@ -256,6 +258,9 @@ def strategies():
             out.append(("G", draw(st.sampled_from(pool)), draw(st.sampled_from([b"v1", b"v1.0", b"t"])), draw(msg)))
             tags.append(len(out) - 1)
             budget -= 1
+        # blobs that look like a tree / commit / tag of the same set
+        for _ in range(draw(st.integers(0, 2)) if budget > 0 and (trees or commits or tags) else 0):
+            out.append(("X", draw(st.sampled_from(trees + commits + tags)), draw(st.sampled_from([b"", b"", b"\n", b"x"]))))
         return out
 
     return dict(specs=specs, st=st, small=small)
